@@ -356,9 +356,31 @@ func clonePayloads(in []lorawan.Payload) []lorawan.Payload {
 	return out
 }
 
+// key16 draws a 128-bit key: mostly random, sometimes the all-zero key, the
+// all-ones key, or the key this stream produced last (process-level caches
+// keyed on the wrong thing only show with special or repeated keys).
 func key16(r *core.RNG) [16]byte {
 	var k [16]byte
-	r.Fill(k[:])
+	switch r.Intn(16) {
+	case 0:
+		// all-zero
+	case 1:
+		if r.Bool() {
+			for i := range k {
+				k[i] = 0xff
+			}
+		} else {
+			k[15] = 1
+		}
+	case 2, 3:
+		if r.HasLastKey {
+			return r.LastKey
+		}
+		r.Fill(k[:])
+	default:
+		r.Fill(k[:])
+	}
+	r.LastKey, r.HasLastKey = k, true
 	return k
 }
 
